@@ -34,6 +34,10 @@ TOL_N = 1e-12  # one multiplication per step
 TOL_GEOM = 1e-9  # real mass ratio vs the ratio the block-model geometry dictates (classification of class (b) only)
 FACTORS = {"u11": 1.1, "d11": 1.0 / 1.1, "u9": 1.0 / 0.9, "d9": 0.9, "one": 1.0}
 INVERSE = {"u11": "d11", "d11": "u11", "u9": "d9", "d9": "u9", "one": "one"}
+# tiny steps of several magnitudes (values just below / above any difference threshold, and their accumulation)
+for _n, _x in (("1e9", 1e-9), ("1e6", 1e-6), ("2e6", 2e-6), ("1e4", 1e-4)):
+    FACTORS["p" + _n], FACTORS["m" + _n] = 1.0 + _x, 1.0 / (1.0 + _x)
+    INVERSE["p" + _n], INVERSE["m" + _n] = "m" + _n, "p" + _n
 # uniform fields; 0.0 C exactly (a falsy reference temperature) and a negative temperature are boundary values
 UNIFORM = {"U350": 350.0, "U450": 450.0, "U550": 550.0, "U0": 0.0, "Um50": -50.0}
 # linear ramps, bottom -> top of the assembly; two of them start / end at exactly 0.0 C
@@ -57,7 +61,7 @@ def _rel(a, b, tol):
 
 
 def _init(stack, heights, alpha="full", **kw):
-    d = {"stack": stack, "heights": [float(h) for h in heights], "fuel_mat": "UZr", "clad_mat": "HT9", "bond": False, "tight": False, "multi": False, "shield_mult": None, "targets": {}, "thot": "varied", "reuse": False, "alpha": alpha}
+    d = {"stack": stack, "heights": [float(h) for h in heights], "fuel_mat": "UZr", "clad_mat": "HT9", "bond": False, "tight": False, "multi": False, "fat": None, "shield_mult": None, "targets": {}, "thot": "varied", "reuse": False, "alpha": alpha}
     d.update(kw)
     return d
 
@@ -82,6 +86,9 @@ def base_inits():
         else:
             out.append(_init(stack, hs, multi=True))  # fuel pin overlaps shield pin AND clad below: two candidates
             out.append(_init(stack, hs, shield_mult=19.0))  # pins of other multiplicity below: fuel block unlinked
+            # thick pellets on a shield block that follows its cladding: hollow (not reaching the slug below) / solid
+            out.append(_init(stack, hs, fat="hollow", targets={"0": "clad"}))
+            out.append(_init(stack, hs, fat="solid", targets={"0": "clad"}))
             out.append(_init(stack, [10, 25, 10], targets={"0": "clad"}, thot="flat"))
             out.append(_init(stack, hs, targets={"1": "clad"}, fuel_mat="UraniumOxide", clad_mat="Inconel625", bond=True))
     return out
@@ -94,6 +101,19 @@ def nondummy(init):
 def alphabet(init):
     """Enabled operations (a function of the init only), simplest first."""
     nd = nondummy(init)
+    if init["alpha"] == "edit":
+        # cold-dimension edits of the fuel pellets between expansions: close / open the central hole (unlinked <->
+        # linked with the slug below), fatten the pellet into the cladding below (two candidates: refused)
+        fb = [i for i in nd if S.kinds(init)[i] == "fuel"]
+        edits = [["setdim", i, "fuel", d, v] for i in fb for d, v in (("id", 0.0), ("id", 0.92), ("od", 1.05))]
+        return [["presc", "clad", "u11"], ["presc", "solids", "u11"], ["presc", "fuel", "d11"], ["therm", "U550", 20]] + edits
+    if init["alpha"] == "tiny":
+        ops = [["presc", "fuel", f] for f in ("p1e9", "m1e9", "p1e6", "m1e6", "p2e6", "p1e4", "m1e4")]
+        ops += [["presc", "solids", f] for f in ("p1e6", "p2e6", "m1e4")]
+        ops += [["therm", S.FLAT_T + 1e-3, 20], ["therm", S.FLAT_T - 1e-3, 20], ["therm", S.FLAT_T + 0.2, 20]]
+        ops += [["rep", 10, ["presc", "fuel", "p1e6"]], ["rep", 100, ["presc", "fuel", "p1e6"]], ["rep", 100, ["presc", "solids", "p1e9"]]]
+        ops += [["stair", 10, 0.2], ["stair", 100, 1e-3]]
+        return ops
     if init["alpha"] == "full":
         sets = ["fuel", "clad"] + ["blk%d" % i for i in nd] + ["solids", "opp"]
         facs = ["u11", "d11", "u9", "d9", "one"]
@@ -121,13 +141,31 @@ def set_factors(init, sname, fname):
     return out
 
 
+def uniform_T(fname):
+    """Temperature of a uniform field (named, or given as a number), None for a ramp."""
+    if isinstance(fname, (int, float)):
+        return float(fname)
+    return UNIFORM.get(fname)
+
+
+def unroll(op):
+    """Macro operations -> primitive operations (presc | therm | setdim)."""
+    if op[0] == "rep":  # ["rep", k, primitive]: the same primitive k times
+        return [op[2]] * int(op[1])
+    if op[0] == "stair":  # ["stair", k, dT]: k uniform fields FLAT_T + dT, FLAT_T + 2 dT, ...
+        return [["therm", S.FLAT_T + op[2] * (j + 1), 20] for j in range(int(op[1]))]
+    return [op]
+
+
 def field(fname, npts, htot):
     grid = [htot * k / (npts - 1) for k in range(npts)]
-    if fname in RAMPS:
+    if uniform_T(fname) is not None:
+        vals = [uniform_T(fname)] * npts
+    elif fname in RAMPS:
         lo, hi = RAMPS[fname]
         vals = [lo + (hi - lo) * z / htot for z in grid]
     else:
-        vals = [UNIFORM[fname]] * npts
+        raise ValueError(fname)
     return grid, vals
 
 
@@ -148,6 +186,7 @@ class Model:
         self.Z = [0.0]
         for h in self.H:
             self.Z.append(self.Z[-1] + h)
+        self.dims = {}  # (i, component name, dimension) -> cold value edited since construction
         self.sol = [S.solids(init, k) if k != "dummy" else [] for k in self.kinds]
         self.target = [S.designated_target(init, i) for i in range(self.n)]
         self.mats = mats  # {(i, name): material object}  (only linearExpansionPercent is used)
@@ -155,7 +194,18 @@ class Model:
         for i, k in enumerate(self.kinds):
             for c in S.block_table(init, k):
                 self.T[(i, c["name"])] = c["Thot"]
-        # linkage: solid (i, name) -> name of the single linked solid in block i-1 (or None)
+        self.relink()
+        self.ever_foreign = [False] * self.n  # since the block's reference masses were (re)taken
+        self.cz = {}  # (i, name) -> (zbottom, ztop) after the last step
+        # expected mass of every solid relative to its reference mass, as the block model dictates:
+        # each step multiplies it by (new block height / old block height) / own growth fraction
+        self.mscale = {(i, s[0]): 1.0 for i in range(self.n) for s in self.sol[i]}
+        self.snap = [(list(self.H), dict(self.mscale))]  # one per reached state
+
+    def relink(self):
+        """Linkage from the CURRENT cold dimensions: solid (i, name) -> name of the single linked solid in
+        block i-1 (or None); ``multi`` if any solid has more than one candidate above or below."""
+        self.sol = [S.solids(self.init, k, {(c, d): v for (i, c, d), v in self.dims.items() if i == bi}) if k != "dummy" else [] for bi, k in enumerate(self.kinds)]
         self.link = {}
         self.multi = None
         for i in range(self.n):
@@ -173,11 +223,6 @@ class Model:
                 if len(below) > 1 or len(above) > 1:
                     self.multi = (i, name, below, above)  # more than one candidate: linkage must be refused
                 self.link[(i, name)] = below[0] if below else None
-        self.cz = {}  # (i, name) -> (zbottom, ztop) after the last step
-        # expected mass of every solid relative to its initial mass, as the block model dictates:
-        # each step multiplies it by (new block height / old block height) / own growth fraction
-        self.mscale = {(i, s[0]): 1.0 for i in range(self.n) for s in self.sol[i]}
-        self.snap = [(list(self.H), dict(self.mscale))]  # one per reached state
 
     def own_chain(self, i):
         """True: block i's bottom is carried by its own target's chain."""
@@ -214,7 +259,10 @@ class Model:
         return "ok", newH, cz, newZ
 
     def predict(self, op):
-        """Returns a dict describing the expected effect of ``op`` (nothing is committed)."""
+        """Returns a dict describing the expected effect of ``op`` (heights etc. are committed by ``commit``)."""
+        if op[0] == "setdim":
+            return {"out": "ok", "edit": (op[1], op[2], op[3], float(op[4])), "g": {}}
+        self.relink()  # before every expansion
         if self.multi:
             return {"out": "refused:RuntimeError", "g": {}}
         if op[0] == "presc":
@@ -243,6 +291,15 @@ class Model:
         return {"out": out, "g": g, "H": newH, "cz": cz, "Z": newZ, "T": newT}
 
     def commit(self, pred):
+        if pred.get("edit"):
+            i, cname, dim, val = pred["edit"]
+            self.dims[(i, cname, dim)] = val
+            for k in self.mscale:  # the block's reference masses are re-taken by the driver
+                if k[0] == i:
+                    self.mscale[k] = 1.0
+            self.ever_foreign[i] = False
+            self.snap.append((list(self.H), dict(self.mscale)))
+            return
         if pred.get("T"):
             self.T.update(pred["T"])
         if pred["out"] == "ok":
@@ -251,6 +308,9 @@ class Model:
             self.H = pred["H"]
             self.Z = pred["Z"]
             self.cz = pred["cz"]
+            for i in range(self.n - 1):
+                if not self.own_chain(i):
+                    self.ever_foreign[i] = True
             self.snap.append((list(self.H), dict(self.mscale)))
 
 
@@ -305,7 +365,9 @@ def apply_op(a, init, op, changer):
     from armi.reactor.converters.axialExpansionChanger.expansionData import iterSolidComponents
 
     try:
-        if op[0] == "presc":
+        if op[0] == "setdim":
+            a[op[1]].getComponentByName(op[2]).setDimension(op[3], float(op[4]))
+        elif op[0] == "presc":
             g = set_factors(init, op[1], op[2])
             comps, percents = [], []
             for i, b in enumerate(a):
@@ -326,11 +388,11 @@ def apply_op(a, init, op, changer):
     return "ok"
 
 
-def canon(ob):
+def canon(ob, dims=None):
     def r(x):
         return float("%.9e" % x)
 
-    return [[r(b["h"])] + [[r(c["T"]), r(sum(c["nd"].values()))] for c in b["comps"]] for b in ob["blocks"]]
+    return [[r(b["h"])] + [[r(c["T"]), r(sum(c["nd"].values()))] for c in b["comps"]] for b in ob["blocks"]] + [sorted([list(k), v] for k, v in (dims or {}).items())]
 
 
 # ---------------------------------------------------------------------------------------------
@@ -338,6 +400,8 @@ def canon(ob):
 
 
 def _opname(op):
+    if op[0] == "rep":
+        return "%dx%s" % (op[1], _opname(op[2]))
     return "%s(%s)" % (op[0], ",".join(str(x) for x in op[1:]))
 
 
@@ -345,8 +409,9 @@ def _is_solid(init, i, name):
     return any(name == s[0] for s in S.solids(init, S.kinds(init)[i])) if S.kinds(init)[i] != "dummy" else False
 
 
-def check_invariants(init, m, ob, ob0, case, nsteps):
-    """Invariants of the property on one observed state (ob0: the initial observation)."""
+def check_invariants(init, m, ob, ref, case, nsteps):
+    """Invariants of the property on one observed state. ``ref``: {(block, component): reference mass}
+    (initial masses; re-taken for a block whose cold dimensions were edited); ``nsteps``: expansions so far."""
     vs = []
     hist = case["hist"]
 
@@ -421,9 +486,9 @@ def check_invariants(init, m, ob, ob0, case, nsteps):
     for i in range(n - 1):
         tname = m.target[i]
         now = [c for c in B[i]["comps"] if c["name"] == tname][0]["mass"]
-        was = [c for c in ob0["blocks"][i]["comps"] if c["name"] == tname][0]["mass"]
+        was = ref[(i, tname)]
         if not _rel(now, was, TOL):
-            if m.own_chain(i):
+            if not m.ever_foreign[i]:
                 bad("target-mass", "block %d (%s) target %s mass %.12g, initially %.12g (ratio %.12g); its bottom is carried by its own chain" % (i, S.kinds(init)[i], tname, now, was, now / was))
             elif not _rel(now / was, m.mscale[(i, tname)], TOL_GEOM):
                 bad("target-mass", "block %d (%s) target %s mass %.12g, initially %.12g (ratio %.12g); the block-model geometry (bottom on a foreign chain) accounts for a ratio of %.12g only" % (i, S.kinds(init)[i], tname, now, was, now / was, m.mscale[(i, tname)]))
@@ -436,16 +501,21 @@ def check_invariants(init, m, ob, ob0, case, nsteps):
     return vs
 
 
-def check_step(init, m, pred, before, after, case):
-    """The last step against the reference model."""
+def check_step(init, m, pred, before, after, case, op):
+    """The last primitive step ``op`` against the reference model."""
     vs = []
     hist = case["hist"]
-    op = hist[-1]
 
     def bad(key, msg):
         vs.append(core.viol("c12/" + key, "%s after %s: %s" % (_short(init), [_opname(o) for o in hist], msg), case))
 
     n = m.n
+    if op[0] == "setdim":  # a geometry edit moves nothing
+        for i in range(n):
+            b0, b1 = before["blocks"][i], after["blocks"][i]
+            if (b0["zb"], b0["zt"], b0["h"]) != (b1["zb"], b1["zt"], b1["h"]) or before["bounds"] != after["bounds"]:
+                bad("edit-moved-mesh", "block %d moved under a cold-dimension edit" % i)
+        return vs
     # heights predicted by the model
     z = m.elevations()
     for i in range(n):
@@ -495,16 +565,16 @@ def _restore_partner(init, hist, outs):
         if n >= 2 and hist[-2][0] == "presc" and hist[-2][1] == last[1] and INVERSE[hist[-2][2]] == last[2]:
             return n - 2
         return None
-    if last[1] not in UNIFORM:
+    if last[0] != "therm" or uniform_T(last[1]) is None:
         return None
     # thermal: nearest earlier state that is the same uniform temperature state with only thermal steps since
     for j in range(n - 2, -1, -1):
         if hist[j][0] != "therm":  # op j+1 (0-based j) must be thermal
             return None
         if j == 0:
-            return 0 if (init["thot"] == "flat" and UNIFORM[last[1]] == S.FLAT_T) else None
+            return 0 if (init["thot"] == "flat" and uniform_T(last[1]) == S.FLAT_T) else None
         prev = hist[j - 1]
-        if prev[0] == "therm" and prev[1] == last[1]:
+        if prev[0] == "therm" and uniform_T(prev[1]) is not None and uniform_T(prev[1]) == uniform_T(last[1]):
             return j
     return None
 
@@ -550,54 +620,74 @@ def expand(item):
     reused = AxialExpansionChanger(detailedAxialExpansion=True)
     mats = {(i, c.name): c.material for i, b in enumerate(a) for c in b}
     m = Model(init, mats)
-    obs = [observe(a, init)]
+    obs = {0: observe(a, init)}  # primitive-state index -> observation (the state after every operation, and the
+    #                              last three primitive states of the last operation)
+    ref = {(i, c["name"]): c["mass"] for i, b in enumerate(obs[0]["blocks"]) for c in b["comps"]}
     viols = []
     out = "ok"
     pred = None
-    all_outs = []
+    prim_hist, n_exp = [], 0
+    hs = [_opname(o) for o in hist]
     for k, op in enumerate(hist):
-        pred = m.predict(op)
-        out = apply_op(a, init, op, AxialExpansionChanger(detailedAxialExpansion=True))
+        last = k == len(hist) - 1
+        prims = unroll(op)
+        out = "ok"
+        for q, prim in enumerate(prims):
+            pred = m.predict(prim)
+            pout = apply_op(a, init, prim, AxialExpansionChanger(detailedAxialExpansion=True))
+            prim_hist.append(prim)
+            if twin is not None:
+                out2 = apply_op(twin, init, prim, reused)
+                if last and q == len(prims) - 1 and (out2 != pout or (pout == "ok" and observe(twin, init) != observe(a, init))):
+                    viols.append(core.viol("c12/changer-reuse", "%s after %s: a reused changer gives %s / a different state than a new changer per operation (%s)" % (_short(init), hs, out2, pout), case))
+            if pout != pred["out"]:
+                if not last:
+                    raise RuntimeError("prefix replay: model/implementation outcome mismatch went unreported at step %d of %s" % (k, hist))
+                kind = "unexpected-exception" if pout.startswith("error") else ("contract-negative-height" if "ArithmeticError" in (pout + pred["out"]) else "contract")
+                viols.append(core.viol("c12/" + kind, "%s after %s (primitive %d): outcome %s, the reference model expects %s" % (_short(init), hs, q, pout, pred["out"]), case))
+                return {"canon": ["diverged", hist], "full": None, "viols": viols, "ops": [], "out": pout, "terminal": True}
+            m.commit(pred)
+            out = pout
+            if pout != "ok":
+                break
+            if prim[0] != "setdim":
+                n_exp += 1
+            if q == len(prims) - 1 or (last and q >= len(prims) - 3):
+                obs[len(prim_hist)] = observe(a, init)
+            if prim[0] == "setdim":
+                now = obs.get(len(prim_hist)) or observe(a, init)
+                for c in now["blocks"][prim[1]]["comps"]:
+                    ref[(prim[1], c["name"])] = c["mass"]
         if k < len(outs) and out != outs[k]:
             raise RuntimeError("prefix replay diverged at step %d of %s: %s, recorded %s" % (k, hist, out, outs[k]))
-        all_outs.append(out)
-        last = k == len(hist) - 1
-        if twin is not None:
-            out2 = apply_op(twin, init, op, reused)
-            if last and (out2 != out or (out == "ok" and observe(twin, init) != observe(a, init))):
-                viols.append(core.viol("c12/changer-reuse", "%s after %s: a reused changer gives %s / a different state than a new changer per operation (%s)" % (_short(init), [_opname(o) for o in hist], out2, out), case))
-        if out != pred["out"]:
-            if not last:
-                raise RuntimeError("prefix replay: model/implementation outcome mismatch went unreported at step %d of %s" % (k, hist))
-            kind = "unexpected-exception" if out.startswith("error") else ("contract-negative-height" if "ArithmeticError" in (out + pred["out"]) else "contract")
-            viols.append(core.viol("c12/" + kind, "%s after %s: outcome %s, the reference model expects %s" % (_short(init), [_opname(o) for o in hist], out, pred["out"]), case))
-            return {"canon": ["diverged", hist], "full": None, "viols": viols, "ops": [], "out": out, "terminal": True}
-        m.commit(pred)
         if out != "ok":
             break
-        obs.append(observe(a, init))
+    np_ = len(prim_hist)
     if out != "ok":
         # a refusal: ArithmeticError leaves a partially restacked assembly (documented abort) - not examined;
         # ValueError (a block without temperature points) must not have moved anything
-        if out == "refused:ValueError":
+        prev = obs.get(np_ - 1)
+        if out == "refused:ValueError" and prev is not None:
             now = observe(a, init)
-            for i, (b1, b0) in enumerate(zip(now["blocks"], obs[-1]["blocks"])):
-                if (b1["zb"], b1["zt"], b1["h"]) != (b0["zb"], b0["zt"], b0["h"]) or now["bounds"] != obs[-1]["bounds"]:
-                    viols.append(core.viol("c12/refusal-moved-mesh", "%s after %s: refused with ValueError but block %d moved" % (_short(init), [_opname(o) for o in hist], i), case))
+            for i, (b1, b0) in enumerate(zip(now["blocks"], prev["blocks"])):
+                if (b1["zb"], b1["zt"], b1["h"]) != (b0["zb"], b0["zt"], b0["h"]) or now["bounds"] != prev["bounds"]:
+                    viols.append(core.viol("c12/refusal-moved-mesh", "%s after %s: refused with ValueError but block %d moved" % (_short(init), hs, i), case))
                     break
-            temps_changed = any(c1["T"] != c0["T"] for b1, b0 in zip(now["blocks"], obs[-1]["blocks"]) for c1, c0 in zip(b1["comps"], b0["comps"]))
+            temps_changed = any(c1["T"] != c0["T"] for b1, b0 in zip(now["blocks"], prev["blocks"]) for c1, c0 in zip(b1["comps"], b0["comps"]))
             return {"canon": ["refused", hist], "full": None, "viols": viols, "ops": [], "out": out, "terminal": True, "partial_T": temps_changed}
-        if out == "refused:RuntimeError" and observe(a, init) != obs[-1]:
-            viols.append(core.viol("c12/refusal-changed-state", "%s after %s: ambiguous linkage refused with RuntimeError but the assembly changed" % (_short(init), [_opname(o) for o in hist]), case))
+        if out == "refused:RuntimeError" and prev is not None and observe(a, init) != prev:
+            viols.append(core.viol("c12/refusal-changed-state", "%s after %s: ambiguous linkage refused with RuntimeError but the assembly changed" % (_short(init), hs), case))
         return {"canon": ["refused", hist], "full": None, "viols": viols, "ops": [], "out": out, "terminal": True}
-    viols += check_invariants(init, m, obs[-1], obs[0], case, len(hist))
+    viols += check_invariants(init, m, obs[np_], ref, case, n_exp)
     j = None
-    if hist:
-        viols += check_step(init, m, pred, obs[-2], obs[-1], case)
-        j = _restore_partner(init, hist, all_outs)
-        if j is not None:
-            viols += check_restore(init, m, obs[-1], obs[j], j, case)
-    return {"canon": canon(obs[-1]), "full": None, "viols": viols, "ops": alphabet(init), "out": out, "restore_checked": j is not None}
+    if prim_hist:
+        viols += check_step(init, m, pred, obs[np_ - 1], obs[np_], case, prim_hist[-1])
+        j = _restore_partner(init, prim_hist, ["ok"] * np_)
+        if j is not None and j in obs:
+            viols += check_restore(init, m, obs[np_], obs[j], j, case)
+        else:
+            j = None
+    return {"canon": canon(obs[np_], m.dims), "full": None, "viols": viols, "ops": alphabet(init), "out": out, "restore_checked": j is not None}
 
 
 def evaluate(case):
@@ -670,6 +760,8 @@ def plan(ctx):
     # SFD base, SFD fuel->clad target, GFFPD base (also with one reused changer), GFFPD upper fuel->duct target
     g0 = [i for i, b in enumerate(base) if b["stack"] == "GFFPD"][0]  # GFFPD base; g0+5: upper fuel block -> duct target
     core4 = [base[0], base[4], dict(base[g0], reuse=True), base[g0 + 5]]
+    fat = [b for b in base if b.get("fat")]
+    flat = [b for b in base if b["thot"] == "flat" and not b["targets"]]  # SFD flat, GFFPD flat
     if ctx.quick:
         rest = [b for i, b in enumerate(base) if i not in (0, 4, g0, g0 + 5)]
         return [
@@ -678,11 +770,16 @@ def plan(ctx):
             ("other inits x reduced alphabet, depth 2", with_alpha(rest, "reduced"), 2),
             ("SFD base x full alphabet, depth 2, twin with one reused changer", with_alpha([dict(base[0], reuse=True)], "full"), 2),
             ("GFFPD base x full alphabet, depth 2", with_alpha([base[g0]], "full"), 2),
+            ("fat-pellet inits x edit alphabet (cold-dimension edits between expansions), depth 3", with_alpha(fat, "edit"), 3),
+            ("SFD flat x tiny-step alphabet (incl. 10x/100x repetition), depth 2", with_alpha(flat[:1], "tiny"), 2),
+            ("GFFPD base x tiny-step alphabet, depth 1", with_alpha([base[g0]], "tiny"), 1),
         ]
     return [
         ("all inits x full alphabet, depth 2", with_alpha([dict(b, reuse=(i % 2 == 0)) for i, b in enumerate(base)], "full"), 2),
         ("all inits x reduced alphabet, depth 4", with_alpha(base, "reduced"), 4),
         ("SFD base x full alphabet, depth 3, twin with one reused changer", with_alpha([dict(base[0], reuse=True)], "full"), 3),
+        ("fat-pellet inits x edit alphabet, depth 4", with_alpha(fat, "edit"), 4),
+        ("4 inits x tiny-step alphabet, depth 2", with_alpha(flat + [base[0], base[g0]], "tiny"), 2),
     ]
 
 
